@@ -287,10 +287,18 @@ def transform_file(rel, src, stats):
     s = re.sub(r"\buse\s+std::collections::HashMap\s*;", "use verif_env::VecMap as HashMap;", s)
     if re.search(r"std::collections::HashMap", s):
         raise RegenError(f"R4: unrecognised HashMap path in {rel}")
+    # R13: LazyLock -> single-task model without Once/union
+    s = re.sub(r"\buse\s+std::sync::LazyLock\s*;", "use verif_env::Lazy as LazyLock;", s)
+    if re.search(r"std::sync::LazyLock", s):
+        raise RegenError(f"R13: unrecognised LazyLock path in {rel}")
     n_now = len(re.findall(r"\bSystemTime::now\(\)", s))
     s = re.sub(r"\bSystemTime::now\(\)", "verif_env::system_now()", s)
     s = re.sub(r"\bUuid::new_v4\(\)", "verif_env::new_uuid_v4()", s)
     if rel.endswith("passage-protocol/src/connection.rs"):
+        # R14: empty-collection constants (`vec![]`, `String::new()`) reach CBMC with a nondeterministic capacity field
+        # in this function context (observed: cap = 10 with a dangling pointer -> spurious realloc/dealloc failures);
+        # a one-byte runtime allocation has the same meaning for the code and a concrete capacity
+        s = s.replace("vec![]", "Vec::with_capacity(1)").replace("String::new()", "String::with_capacity(1)")
         # R2b: cancellation point at the head of the endless keep_alive() loop
         m = re.search(r"fn keep_alive<T>\(&mut self\) -> Result<T, Error> \{\s*loop \{", s)
         if not m:
